@@ -169,7 +169,7 @@ def excuses_scoped(norm, src):
     n_embedded = n_labels = 0
     for e in src:
         if e[0] == 'S':
-            if stack and stack[-1] in norm.binary:
+            if stack and (stack[-1] in norm.binary or (norm.lang['id'] == 1801 and stack[-1] == b'ds:KeyValue')):
                 add('[mixed-content-in-binary-element]', stack[-1])
             stack.append(local(e[1]))
             if norm.syncml and embedded_at is None and stack[-1] in (b'DevInf', b'MgmtTree'):
